@@ -34,6 +34,7 @@ def model():
                   tlc_states=(gen, distinct), edges=len(edges))
     cls_ptype = {c: p for p, cs in classes.items() for c in cs}
     cls_ptype.update(EXTRA)
+    cls_ptype.update({'TiltAsPupil': 'pupil', 'TiltAsImage': 'image'})
     _MODEL['cls_ptype'] = cls_ptype
     return _MODEL
 
@@ -72,6 +73,10 @@ def make_plane(action, **kw):
         return lentil.Image(amplitude=A.copy(), **kw)
     if name == 'Tilt':
         return lentil.Tilt(x=0.0, y=0.0, **kw)
+    if name == 'TiltAsPupil':
+        return lentil.Tilt(x=0.0, y=0.0, ptype=lentil.pupil, **kw)
+    if name == 'TiltAsImage':
+        return lentil.DispersiveTilt(trace=[1.0, 0.0], dispersion=[1.0, op.WL], ptype=lentil.image, **kw)
     if name == 'DispersiveTilt':
         return lentil.DispersiveTilt(trace=[1.0, 0.0], dispersion=[1.0, op.WL], **kw)
     if name == 'Grism':
@@ -105,7 +110,19 @@ def pdigest(p):
     return h.hexdigest()
 
 
-def apply(w, action, fft=False):
+_REUSED = {}
+
+
+def plane_for(action, reuse):
+    """reuse: one plane object per action for the whole path (the same Tilt meets wavefronts of different types)"""
+    if not reuse:
+        return make_plane(action)
+    if action not in _REUSED:
+        _REUSED[action] = make_plane(action)
+    return _REUSED[action]
+
+
+def apply(w, action, fft=False, reuse=False):
     """-> (new wavefront or None, exception or None, plane)"""
     import lentil
     if action in ('Propagate', 'PropagateFFT'):
@@ -118,7 +135,7 @@ def apply(w, action, fft=False):
             return lentil.propagate_dft(w, du, shape=(3, 3), oversample=1), None, None
         except Exception as e:
             return None, e, None
-    plane = make_plane(action)
+    plane = plane_for(action, reuse)
     try:
         return w * plane, None, plane
     except Exception as e:
@@ -129,7 +146,7 @@ def step_check(M, node, w, action, path, acc, fft=False):
     """Execute one model edge on the implementation.  Returns (next node, next wavefront) or None to prune."""
     nxt = M['succ'][node][action]
     exp = M['nodes'][nxt]
-    case = {'kind': 'path', 'init': M['nodes'][path['n0']]['wf'], 'actions': path['acts'] + [action], 'fft': fft, 'empty': path.get('empty', False)}
+    case = {'kind': 'path', 'init': M['nodes'][path['n0']]['wf'], 'actions': path['acts'] + [action], 'fft': fft, 'empty': path.get('empty', False), 'reuse': path.get('reuse', False)}
     before = wdigest(w)
     if action.startswith('Cls_'):
         try:
@@ -141,7 +158,7 @@ def step_check(M, node, w, action, path, acc, fft=False):
         except Exception as e:
             acc.violation(f'class:{action[4:]}:construct:{type(e).__name__}', case, repr(e))
             return None
-    out, exc, plane = apply(w, action, fft)
+    out, exc, plane = apply(w, action, fft, path.get('reuse', False))
     pd0 = pdigest(plane) if plane is not None else None
     site = f'cell:{M["nodes"][node]["wf"]}x{plane.ptype}' if (plane is not None and action.startswith('Mul_')) else (
         f'class:{action[4:]}' if action.startswith('Cls_') else f'{action.lower()}:{M["nodes"][node]["wf"]}')
@@ -189,7 +206,7 @@ def step_check(M, node, w, action, path, acc, fft=False):
     return nxt, out
 
 
-def explore(M, n0, first, depth, acc, fft=False, empty=False):
+def explore(M, n0, first, depth, acc, fft=False, empty=False, reuse=False):
     """All model paths of length <= depth that start with `first` from initial node n0 are replayed.
     De-duplicated on (model node, implementation digest, remaining depth)."""
     memo = {}
@@ -205,7 +222,7 @@ def explore(M, n0, first, depth, acc, fft=False, empty=False):
             return
         for action in sorted(M['succ'][node]):
             acc.transitions += 1
-            r = step_check(M, node, w, action, {'n0': n0, 'acts': acts, 'empty': empty}, acc, fft)
+            r = step_check(M, node, w, action, {'n0': n0, 'acts': acts, 'empty': empty, 'reuse': reuse}, acc, fft)
             if r is None:
                 acc.cls('pruned-after-violation')
                 continue
@@ -213,14 +230,15 @@ def explore(M, n0, first, depth, acc, fft=False, empty=False):
 
     w0 = fresh_wavefront(M['nodes'][n0]['wf'], empty=empty)
     acc.transitions += 1
-    r = step_check(M, n0, w0, first, {'n0': n0, 'acts': [], 'empty': empty}, acc, fft)
+    r = step_check(M, n0, w0, first, {'n0': n0, 'acts': [], 'empty': empty, 'reuse': reuse}, acc, fft)
     if r is not None:
         rec(r[0], r[1], [first], depth - 1)
 
 
 def t_paths(arg, acc):
     M = model_from(arg['model'])
-    explore(M, arg['n0'], arg['first'], arg['depth'], acc, arg.get('fft', False), arg.get('empty', False))
+    _REUSED.clear()
+    explore(M, arg['n0'], arg['first'], arg['depth'], acc, arg.get('fft', False), arg.get('empty', False), arg.get('reuse', False))
 
 
 def run(tier, seed, acc, procs=None):
@@ -242,6 +260,7 @@ def run(tier, seed, acc, procs=None):
         for a in M['acts']:
             tasks.append(('t_paths', {'model': share, 'n0': n0, 'first': a, 'depth': depth}))
             tasks.append(('t_paths', {'model': share, 'n0': n0, 'first': a, 'depth': depth - 1, 'empty': True}))
+            tasks.append(('t_paths', {'model': share, 'n0': n0, 'first': a, 'depth': depth - 1, 'reuse': True}))
     acc.states += len(M['nodes'])
     acc.transitions += M['edges']
     acc.cls('tlc-distinct-states', M['tlc_states'][1])
@@ -268,8 +287,9 @@ def replay(case, acc):
     node = n0
     w = fresh_wavefront(case['init'], empty=case.get('empty', False))
     acts = []
+    _REUSED.clear()
     for a in case['actions']:
-        r = step_check(M, node, w, a, {'n0': n0, 'acts': acts, 'empty': case.get('empty', False)}, acc, case.get('fft', False))
+        r = step_check(M, node, w, a, {'n0': n0, 'acts': acts, 'empty': case.get('empty', False), 'reuse': case.get('reuse', False)}, acc, case.get('fft', False))
         if r is None:
             break
         node, w = r
